@@ -19,7 +19,16 @@ import hugr.model as model
 from hugr._serialization.ops import OpType as SerialOp
 from hugr._serialization.serial_hugr import SerialHugr
 from hugr.exceptions import ParentBeforeChild
-from hugr.ops import Call, Const, Custom, DataflowOp, Module, Op
+from hugr.ops import (
+    Call,
+    Const,
+    Custom,
+    DataflowOp,
+    LoadConst,
+    LoadFunc,
+    Module,
+    Op,
+)
 from hugr.tys import Kind, Type, ValueKind
 from hugr.utils import BiMap
 from hugr.val import Value
@@ -701,11 +710,34 @@ class Hugr(Mapping[Node, NodeData], Generic[OpVarCov]):
         # not counted in the number of ports.
         if p.offset < 0:
             assert p.offset == -1, "Only order edges are allowed with offset < 0"
-            offset = self.num_ports(p.node, p.direction)
+            order_offset = self._order_port_offset(p.node, p.direction)
+            if order_offset is None:
+                # not a dataflow operation: fall back on the ports in use
+                order_offset = self.num_ports(p.node, p.direction)
+            offset = order_offset
         else:
             offset = p.offset
 
         return offset
+
+    def _order_port_offset(self, node: ToNode, direction: Direction) -> int | None:
+        """The serialized offset of the state order port of a dataflow node:
+        the first port after the value ports of the operation's signature and
+        its static input port, if it has one. It does not depend on which
+        ports are connected. None if the operation is not a dataflow operation.
+        """
+        op = self[node].op
+        if isinstance(op, Call):
+            sig = op.instantiation
+        elif isinstance(op, DataflowOp):
+            sig = op.outer_signature()
+        else:
+            return None
+        if direction == Direction.OUTGOING:
+            return len(sig.output)
+        # the static (function / constant) input comes after the value inputs
+        has_static_input = isinstance(op, Call | LoadConst | LoadFunc)
+        return len(sig.input) + int(has_static_input)
 
     def resolve_extensions(self, registry: ext.ExtensionRegistry) -> Hugr:
         """Resolve extension types and operations in the HUGR by matching them to
